@@ -6,6 +6,7 @@ import AnyVecModel.Proofs.KernelStack
 import AnyVecModel.Proofs.KernelCap
 namespace AnyVec
 namespace C11
+variable {bg : Nat → Option VecSt}
 open World
 
 /-- fixed-capacity backends -/
@@ -131,8 +132,8 @@ on a fixed storage (`Stack`, `StackN`, `Empty`) shows an abstract vector, after 
 `reserve` calls the world still shows an abstract vector of the same capacity - and along the way a value was refused
 exactly when the vector was full (`Refine.Spec.Room`), never before. -/
 theorem fixed_capacity_through_history (cfg : Cfg) (v ty : Nat) (ops : List Refine.VOp) (w : World) (s : Refine.Spec)
-    (h : Refine.Rel v ty w s) (hfx : s.fixed = true) (hall : ∀ op ∈ ops, op.Allowed s.fixed) :
-    ∃ s', Refine.Spec.Steps s ops s' ∧ Refine.Rel v ty (Refine.runOps cfg v ty w ops) s' ∧ s'.cap = s.cap := by
+    (h : Refine.Rel bg v ty w s) (hfx : s.fixed = true) (hall : ∀ op ∈ ops, op.Allowed s.fixed) :
+    ∃ s', Refine.Spec.Steps s ops s' ∧ Refine.Rel bg v ty (Refine.runOps cfg v ty w ops) s' ∧ s'.cap = s.cap := by
   obtain ⟨s', hsteps, hrel⟩ := Refine.history_refines cfg v ty ops w s h hall
   exact ⟨s', hsteps, hrel, hsteps.cap_fixed hfx hall⟩
 
